@@ -49,6 +49,8 @@ func (s *jsonStream) next() (any, error) {
 		if err != nil {
 			if err == io.EOF && s.states[len(s.states)-1] != jsonStateTopValue {
 				err = io.ErrUnexpectedEOF
+			} else if e, ok := err.(*json.SyntaxError); ok && e.Offset == s.dec.InputOffset() {
+				e.Offset++ // the offset of a token error does not count the invalid character
 			}
 			return nil, err
 		}
